@@ -13,8 +13,11 @@ import (
 
 	"pgregory.net/rapid"
 
+	"github.com/hneemann/parser2/value"
+
 	"verif/harness/evid"
 	"verif/harness/lang"
+	"verif/harness/obs"
 	"verif/harness/progs"
 )
 
@@ -22,13 +25,16 @@ const prop = "C11"
 
 // Case: a program, argument tuples, and the concurrency shape.
 type Case struct {
-	Prog       lang.Program    `json:"prog"`
-	Text       string          `json:"text"`
-	Tuples     [][]*lang.Expr  `json:"tuples"`
-	Goroutines int             `json:"goroutines"`
-	Procs      int             `json:"gomaxprocs"`
-	Repeats    int             `json:"repeats"`
-	Opt        bool            `json:"optimizer"`
+	Prog       lang.Program   `json:"prog"`
+	Text       string         `json:"text"`
+	Tuples     [][]*lang.Expr `json:"tuples"`
+	Goroutines int            `json:"goroutines"`
+	Procs      int            `json:"gomaxprocs"`
+	Repeats    int            `json:"repeats"`
+	Opt        bool           `json:"optimizer"`
+	// ArgTable: the arguments of all goroutines lie in one table, row after row; every
+	// goroutine passes its row (a sub-slice whose capacity reaches over the following rows)
+	ArgTable bool `json:"arg_table,omitempty"`
 }
 
 func config() lang.Config {
@@ -102,6 +108,17 @@ func check(c Case) (string, info) {
 			return "Generate rejected the program: " + err.Error(), inf
 		}
 		n := c.Goroutines
+		var rows [][]value.Value
+		if c.ArgTable {
+			k := len(c.Prog.ArgNames)
+			var table []value.Value
+			for i := 0; i < n; i++ {
+				table = append(table, progs.ImplArgs(progs.Case{Prog: c.Prog, Args: c.Tuples[i%len(c.Tuples)]}, obs.RepListMap)...)
+			}
+			for i := 0; i < n; i++ {
+				rows = append(rows, table[i*k:(i+1)*k])
+			}
+		}
 		got := make([]progs.Outcome, n)
 		starts := make([]time.Time, n)
 		ends := make([]time.Time, n)
@@ -116,7 +133,11 @@ func check(c Case) (string, info) {
 				ready.Done()
 				<-release
 				starts[i] = time.Now()
-				got[i] = progs.ImplEval(f, pc)
+				if rows != nil {
+					got[i] = progs.Observe(f.Eval(rows[i]...))
+				} else {
+					got[i] = progs.ImplEval(f, pc)
+				}
 				ends[i] = time.Now()
 			}(i)
 		}
@@ -160,7 +181,8 @@ func TestPropC11(t *testing.T) {
 		g := lang.NewGen(t, cfg)
 		p := g.GenProgram()
 		c := Case{Prog: p, Text: lang.Render(p.Body), Goroutines: rapid.IntRange(2, 16).Draw(t, "goroutines"),
-			Procs: rapid.SampledFrom([]int{1, 2, 4, 16, 16}).Draw(t, "procs"), Repeats: 2, Opt: rapid.IntRange(0, 4).Draw(t, "opt") != 0}
+			Procs: rapid.SampledFrom([]int{1, 2, 4, 16, 16}).Draw(t, "procs"), Repeats: 2, Opt: rapid.IntRange(0, 4).Draw(t, "opt") != 0,
+			ArgTable: rapid.IntRange(0, 2).Draw(t, "argTable") == 0}
 		nt := rapid.IntRange(1, 3).Draw(t, "tuples")
 		for i := 0; i < nt; i++ {
 			c.Tuples = append(c.Tuples, progs.GenArgs(t, p.ArgTypes))
@@ -173,6 +195,9 @@ func TestPropC11(t *testing.T) {
 		cls := dedup(inf.classes)
 		if inf.overlapped {
 			cls = append(cls, "evaluations_overlapped")
+		}
+		if c.ArgTable {
+			cls = append(cls, "arguments_are_rows_of_one_table")
 		}
 		if len(c.Tuples) == 1 {
 			cls = append(cls, "equal_arguments")
